@@ -46,6 +46,30 @@ def run(chk, replay=None):
                     chk.violate('stream outputs of two lines that differ only in sensitive literal contents differ', {'cfg': cfg.describe(), 'L': a.decode('utf-8', 'replace')[:800], 'L2_len': len(b), 'L2': b.decode('utf-8', 'replace')[:800],
                                 'out_L': oa[:200].decode('utf-8', 'replace'), 'out_L2': ob[:200].decode('utf-8', 'replace'), 'result_L': ca, 'result_L2': cb}, tags=['interference', 'stream'])
             chk.streams.append({'stream': 'paired lines through the stream processor', 'pairs': len(sel), 'longest': max([len(p[1]) for p in sel] or [0])})
+    # literal contents that are not valid UTF-8 (a Latin-1 byte, a cut multi-byte sequence, an encoded surrogate, a code point past U+10FFFF, an overlong form):
+    # still a string of the generic class - the reader replaces the bad bytes - so the line must come out exactly like its twin with a plain literal,
+    # in-process and through the stream processor (where a line the parser refuses must not be copied through either)
+    from vlib import streamlib as _sl0
+    bad = [b'Ren\xe9e', b'\xff', b'caf\xc3', b'x\xed\xa0\x80y', b'\xf4\x90\x80\x80', b'\xc0\xaf', b'a\x80b\xbf', b'\xe4\xb8']
+    tpls = [b'{"t":{"$date":"2024-01-01T00:00:00.000+00:00"},"s":"I","c":"COMMAND","id":51803,"ctx":"conn1","msg":"Slow query","attr":{"ns":"d.c","command":{"find":"c","filter":{"name":"%s"},"$db":"d"}}}',
+            b'{"t":{"$date":"2024-01-01T00:00:00.000+00:00"},"s":"I","c":"WRITE","id":51803,"ctx":"conn1","msg":"Slow query","attr":{"ns":"d.c","command":{"q":{"_id":1},"u":{"$set":{"tags":["%s",5]}}}}}',
+            b'{"t":{"$date":"2024-01-01T00:00:00.000+00:00"},"s":"I","c":"COMMAND","id":51803,"ctx":"conn1","msg":"Slow query","attr":{"ns":"d.c","command":{"aggregate":"c","pipeline":[{"$match":{"who":{"$in":["%s"]}}}],"$db":"d"}}}',
+            b'{"t":{"$date":"2024-01-01T00:00:00.000+00:00"},"s":"I","c":"COMMAND","id":51803,"ctx":"conn1","msg":"Slow query","attr":{"ns":"d.c","command":{"insert":"c","documents":[{"note":{"text":"%s"}}],"$db":"d"}}}']
+    cfg = Cfg()
+    twins = [(t % b'plain words', t % x) for t in tpls for x in bad]
+    ra = run_lines(cfg, [a for a, _ in twins]); rb = run_lines(cfg, [b for _, b in twins])
+    sa = _sl0.impl_stream(cfg, [{'data': a + b'\n'} for a, _ in twins]); sb = _sl0.impl_stream(cfg, [{'data': b + b'\n' + a + b'\n'} for a, b in twins])
+    for (a, b), (ioa, moa), (iob, mob), (ca, oa, _), (cb, ob, _) in zip(twins, ra, rb, sa, sb):
+        chk.count(4); chk.nontriv(('badutf8', b)); chk.dist('pairs_invalid_utf8')
+        if (ioa == iob) != (moa == mob):
+            chk.disagree('equality of the two outputs (invalid UTF-8 twin)', {'L': a.decode('latin-1'), 'L2_hex': b.hex()}, ioa == iob, moa == mob)
+        if ioa != iob:
+            chk.violate('outputs of two lines that differ only in sensitive literal contents differ (the second literal is not valid UTF-8)',
+                        {'cfg': cfg.describe(), 'L': a.decode('latin-1'), 'L2_hex': b.hex(), 'out_L': str(ioa)[:300], 'out_L2': str(iob)[:300]}, tags=['interference', 'invalid-utf8'])
+        elif (cb, ob) != (ca, oa + oa):
+            chk.violate('stream output for a line whose sensitive literal is not valid UTF-8 differs from that of its twin',
+                        {'cfg': cfg.describe(), 'L': a.decode('latin-1'), 'L2_hex': b.hex(), 'out_L': oa[:300].decode('utf-8', 'replace'), 'out_L2': ob[:400].decode('latin-1'), 'result_L': ca, 'result_L2': cb}, tags=['interference', 'invalid-utf8', 'stream'])
+    chk.streams.append({'stream': 'twins whose second literal is not valid UTF-8 (8 byte sequences x 4 places), in-process and through the stream processor', 'pairs': len(twins)})
     # under $date, $oid and $binary.base64 EVERY string is one lexical class: texts of every shape there (a date, 24 hex digits, base64, a UUID, an e-mail
     # address, a plain word, the empty string, a number, the placeholders themselves) must give one and the same output line
     shapes = ['2024-05-01T10:15:00.000Z', '0123456789abcdef01234567', 'QUJDREVGRw==', 'a657a630-1111-4000-8000-d01de73c37e7', 'zoe@corp.example', 'Xq77plainqX', '', '42', 'REDACTED',
